@@ -354,6 +354,11 @@ func genScenario(rng *rand.Rand, id string) *scenario {
 		e := edit{Op: ops[rng.Intn(len(ops))], Kid: rng.Intn(8), Value: fmt.Sprintf("w%d", i)}
 		sc.Edits = append(sc.Edits, e)
 	}
+	if rng.Intn(5) == 0 {
+		// the parent is deleted and created again under the same name (new UID) while the
+		// ControllerRevisions of the previous incarnation are still there
+		sc.Edits = append(sc.Edits, edit{Op: "recreate-parent", Value: "rp"})
+	}
 	return sc
 }
 
@@ -691,6 +696,28 @@ func (r *scenarioRun) applyEdit(e edit) bool {
 		i := e.Kid % len(r.kids)
 		r.kids = append(r.kids[:i:i], r.kids[i+1:]...)
 		return updateParent()
+	case "recreate-parent":
+		old := s.Peek(pgvr, r.sc.ns(), r.sc.parentName())
+		if old == nil || len(sim.Finalizers(old)) > 0 {
+			return false
+		}
+		if err := s.ExtDelete(pgvr, r.sc.ns(), r.sc.parentName(), ""); err != nil {
+			return false
+		}
+		// the garbage collector has removed the children of the previous incarnation, not yet its
+		// ControllerRevisions
+		for _, ri := range r.childGVRs() {
+			for _, o := range s.PeekAll(ri.GVR()) {
+				for _, ref := range sim.OwnerRefs(o) {
+					if ref.UID == sim.UID(old) {
+						s.ExtDelete(ri.GVR(), sim.NS(o), sim.Name(o), "")
+						break
+					}
+				}
+			}
+		}
+		r.parent = s.MustCreate(pgvr, r.sc.parentObject(r.kids, r.rev, r.extra))
+		return true
 	case "set-rev":
 		r.rev = "r-" + e.Value
 		return updateParent()
